@@ -11,4 +11,6 @@ var All = map[string]func(tier string) int{
 	"C06": C06,
 	"C07": C07,
 	"C08": C08,
+	"C12": C12,
+	"C19": C19,
 }
